@@ -30,13 +30,18 @@ import (
 
 var docValStrings = []string{"hello", "yes", "no", "true", "null", "~", "0x1f", "1e3", "12", "2002-08-15", "a: b", "- x", "#c", "'q'", "\"dq\"",
 	"tab\there", "multi\nline", "trailing ", " leading", "é↑", "{{matrix}}", "$HOME", "a,b", "[x]", "{y}", "&a", "*b", "!tag", "%d", "@at",
-	"`bt`", "|", ">", "?", ":", "-", "=", "<", "cr\rlf", "tRUE", "fALSE", "nULL", "yES", "crcrlf\r\r\nend", "crlf\r\nend", "lfcr\n\rend", "tail\r", "x y", "\U0001F600", "0", "-1", "1.0", "on", "OFF", "Null", "3:25:45"}
+	"`bt`", "|", ">", "?", ":", "-", "=", "<", "cr\rlf", "tRUE", "fALSE", "nULL", "yES", "crcrlf\r\r\nend", "crlf\r\nend", "lfcr\n\rend", "tail\r", "x y", "\U0001F600", "0", "-1", "1.0", "on", "OFF", "Null", "3:25:45",
+	// control characters that JSON and Go spell differently (an ANSI colour sequence, BEL, VT)
+	"\x1b[31mred\x1b[0m", "bell\a", "v\vt"}
 var docKeyStrings = []string{"k", "a b", "", "12", "0xc", "+12", "True", "true", "null", "~", "x: y", "#h", "'s'", "é", "0x1f", "1e3", "- d", "[", "*s", "&r", "!t", "|", ">",
 	"%p", "@a", "yes", "multi\nkey", "agents", "retry", "if", "depends_on", "soft_fail", "timeout_in_minutes", "0", "-", "?", "k2", "k3", "zz",
 	// the canonical key strings of floats (YAML renderings may write them as plain floats, in any spelling): two that agree
 	// in their first eight digits are still two keys
-	"1.5e+00", "1.00000001e+00", "1.00000002e+00", "-2.5e-07", "1e+300", "1.2345678901234567e+00"}
-var docSources = []string{"docker#v1", "my-org/thing#main", "ecr", "github.com/buildkite-plugins/docker-buildkite-plugin#v2", "./local", "https://example.com/p.git#v1"}
+	"\x1besc", "b\ael", "8", "7", "010", "007", "1.5e+00", "1.00000001e+00", "1.00000002e+00", "-2.5e-07", "1e+300", "1.2345678901234567e+00"}
+var docSources = []string{"docker#v1", "my-org/thing#main", "ecr", "github.com/buildkite-plugins/docker-buildkite-plugin#v2", "./local", "https://example.com/p.git#v1",
+	// percent-escapes in a ref: the short form is expanded (its ref decoded once), the qualified form is left exactly as written -
+	// and whatever was emitted is a fixed point when it is read again
+	"my-org/deploy#v1.4.0%252Bbuild7", "github.com/my-org/deploy-buildkite-plugin#rel%252F1"}
 
 type docStrings struct {
 	rng  *rand.Rand
@@ -436,6 +441,20 @@ func historyFromDoc(d any, hist int) any {
 			for i := n - 1; i >= 0; i-- {
 				m.Delete(fmt.Sprintf("\x00junk%d", i))
 			}
+		case hist == 7 && len(x) >= 2:
+			// MapFromItems over a caller's slice that has spare capacity, twice: the two maps (and the slice) are
+			// independent of each other - what one of them appends is not the other's storage
+			items := make([]ordered.TupleSA, 0, len(x)+4)
+			for _, p := range x[:len(x)-1] {
+				items = append(items, ordered.TupleSA{Key: p[0].(string), Value: historyFromDoc(p[1], hist)})
+			}
+			m = ordered.MapFromItems(items...)
+			twin := ordered.MapFromItems(items...)
+			last := x[len(x)-1]
+			m.Set(last[0].(string), historyFromDoc(last[1], hist))
+			twin.Set("\x00twin", "t")
+			twin.Set(x[0][0].(string), "twin's own")
+			_ = append(items, ordered.TupleSA{Key: "\x00caller", Value: "c"})
 		default:
 			for _, p := range x {
 				m.Set(p[0].(string), historyFromDoc(p[1], hist))
@@ -508,7 +527,7 @@ func runCDoc(args []string) {
 				sz = 9 + rng.Intn(32)
 			}
 			d := g.freeMap(0, sz)
-			for hist := 0; hist < 7; hist++ {
+			for hist := 0; hist < 8; hist++ {
 				tw.emit(progEvent(d, hist))
 			}
 		}
